@@ -2508,8 +2508,12 @@ def preprocess_file(
                     def_value = (match.group(4), def_value)
 
                 defs_tmp[def_name] = def_value
+                # The pattern compiled for an earlier definition of the name
+                # (object-like or function-like, other parameters) is stale
+                def_regexes.pop(def_name, None)
             elif (match.group(1) == "undef") and (def_name in defs_tmp):
                 defs_tmp.pop(def_name, None)
+                def_regexes.pop(def_name, None)
             log.debug("%s !!! Define statement(%d)", line.strip(), i + 1)
             continue
         # Handle include files
